@@ -544,6 +544,49 @@ func emitRoute(c *Ctx, o routeOp) {
 		its = append(its, r+":"+b01(o.pred && d.idx >= 0 && (o.mask>>uint(d.idx))&1 == 1))
 	}
 	c.Emit(fmt.Sprintf("!sent ro=%s pred=%s need=%s all=%s items=%s", b01(o.ro), b01(o.pred), need, b01(all), strings.Join(its, ",")), "ok", false)
+	// second oracle: a selector result outside the candidate list must fall back to the primary
+	var sel *int
+	cand := func(d delivered) int { return 0 }
+	switch {
+	case o.mode == "sa" && o.sel != nil:
+		sel = o.sel
+		n := 0
+		if o.az { // s.nodes is only filled with EnableReplicaAZInfo (primary + replicas)
+			n = o.nrep + 1
+		}
+		cand = func(delivered) int { return n }
+	case o.mode == "cl" && o.rns != nil:
+		sel = o.rns
+		cand = func(d delivered) int { return []int{o.nrep0, o.nrep1}[d.shard] + 1 } // primary + replicas of the shard
+	case o.mode == "cl" && o.rs != nil:
+		sel = o.rs
+		cand = func(d delivered) int { return []int{o.nrep0, o.nrep1}[d.shard] } // the shard's replicas
+	}
+	if sel != nil && o.pred && o.api != "cache" && o.api != "mcache" || (sel != nil && o.pred && o.mode == "cl") {
+		var ss []string
+		bad := false
+		for _, d := range items {
+			if !(d.idx >= 0 && (o.mask>>uint(d.idx))&1 == 1) {
+				continue // the selector is only consulted for opted-in commands
+			}
+			r := "P"
+			if d.role != "P" {
+				r = "R"
+			}
+			n := cand(d)
+			ss = append(ss, fmt.Sprintf("%s:%d", r, n))
+			if (*sel < 0 || *sel >= n) && r != "P" {
+				bad = true
+			}
+		}
+		if len(ss) > 0 {
+			c.Emit(fmt.Sprintf("!sel k=%d items=%s", *sel, strings.Join(ss, ",")), "ok", false)
+			if bad {
+				c.Fail("route:selector-out-of-range-not-primary", line,
+					fmt.Sprintf("selector result %d is outside the candidate list but the command reached a replica (%s)", *sel, strings.Join(ss, ",")))
+			}
+		}
+	}
 }
 
 func replayRoute(c *Ctx, lines []string) {
